@@ -184,6 +184,11 @@ func VerifHarness_C10_group() {
 	m.Header.SetString(tagBeginString, "FIX.4.2")
 	m.Header.SetString(tagMsgType, "D")
 	const gTag, delim, member = 453, 448, 447
+	if ndBool("same-counter-tag-used-with-another-template-before") {
+		// elsewhere in the process (another FIX version, a customised dictionary) the same group is laid out differently
+		other := NewRepeatingGroup(gTag, GroupTemplate{GroupElement(member), GroupElement(delim)})
+		other.Add().SetString(member, "q")
+	}
 	mk := func(name string) (*RepeatingGroup, [][2][]byte) {
 		g := NewRepeatingGroup(gTag, GroupTemplate{GroupElement(delim), GroupElement(member)})
 		n := verifConc(ndInt(name+".entries", 1, 2))
